@@ -170,6 +170,23 @@ def process_template(path, crate, repo, gen=None, depth=0):
                 gen.add(extra, f'{rel}:{i+1}', tags)
             gen.add(txt, f'/repo {module}::{a[1]}', tags)
             gen.rule_counts['D1'] = gen.rule_counts.get('D1', 0) + 1
+        elif kw == 'expect-body':
+            # //@expect-body <module> <fn> impl=<re> /regex/ : a rule of this unit ASSUMES what a small function of /repo does (e.g. R4: the
+            # IntoIterator impl of &Directory is `self.entries.iter()`); the assumption is checked against the current text on every
+            # run, a mismatch is a lost anchor (the run is undecided unless a failing input is found)
+            m_e = re.match(r'(\S+)\s+(\S+)\s+(?:impl=(\S+)\s+)?/(.*)/\s*$', arg)
+            if not m_e:
+                raise ExtractionError(f'{rel}:{i+1}: malformed //@expect-body')
+            mod_e, fn_e, impl_e, rx_e = m_e.groups()
+            try:
+                f_e = crate.find_fn(mod_e, fn_e, impl_e)
+                body_e = ' '.join(t for _, t in X.canon_lines(X.strip_attrs(list(f_e['body'])))).strip()
+            except ExtractionError as e_e:
+                body_e = None
+                gen.lost.append(f'expect-body {mod_e}::{fn_e}: {e_e}')
+            if body_e is not None and not re.fullmatch(rx_e, body_e):
+                gen.lost.append(f'expect-body {mod_e}::{fn_e}: the body is `{body_e[:120]}`, the extraction rules of this unit assume /{rx_e}/')
+            gen.rule_counts['R4g'] = gen.rule_counts.get('R4g', 0) + 1
         elif kw == 'stub':
             # //@stub <unit> <fn> [as=<name>] : the contract PROVED for <fn> in unit <unit>, as an external_body declaration
             a = arg.split()
